@@ -331,6 +331,9 @@ Definition E_OK : N := 0.  Definition E_INVAL : N := 1.  Definition E_NOENT : N 
 Definition opt_bs_eqb (a b : option bset) : bool :=
   match a, b with Some x, Some y => bs_eqb x y | _, _ => false end.
 
+Definition io_children (d : dump) (o : dobj) : list dobj :=
+  flat_map (fun p => match deref d p with Some c => [c] | None => [] end) (o_ich o).
+
 Fixpoint climb_osdev (d : dump) (fuel : nat) (o : dobj) : option dobj :=
   match fuel with
   | O => None
@@ -339,14 +342,17 @@ Fixpoint climb_osdev (d : dump) (fuel : nat) (o : dobj) : option dobj :=
            else Some o
   end.
 
-Definition get_obj_with_same_locality (d : dump) (src : dobj) (ty : N) : option dobj * N :=
-  if is_normal (o_type src) || is_memory (o_type src) then
+(* [mt o]: obj->subtype matches subtype and obj->name starts with nameprefix (case-insensitive;
+   always true when both arguments are NULL).  The string comparisons are made by the caller. *)
+Definition get_obj_with_same_locality (d : dump) (src : dobj) (ty : N) (mt : dobj -> bool) (flags : N) : option dobj * N :=
+  if negb (flags =? 0) then (None, E_INVAL)
+  else if is_normal (o_type src) || is_memory (o_type src) then
     if negb (is_normal ty) && negb (is_memory ty) then (None, E_INVAL)
     else
       let dep := get_type_depth d (Z.of_N ty) in
       (* hwloc_get_next_obj_by_type: NULL for an unknown or multiple depth *)
       if (dep =? HWLOC_TYPE_DEPTH_UNKNOWN)%Z || (dep =? HWLOC_TYPE_DEPTH_MULTIPLE)%Z then (None, E_NOENT)
-      else match find (fun o => opt_bs_eqb (o_cs src) (o_cs o) && opt_bs_eqb (o_nds src) (o_nds o)) (level_objs d dep) with
+      else match find (fun o => opt_bs_eqb (o_cs src) (o_cs o) && opt_bs_eqb (o_nds src) (o_nds o) && mt o) (level_objs d dep) with
            | Some o => (Some o, E_OK)
            | None => (None, E_NOENT)
            end
@@ -357,15 +363,88 @@ Definition get_obj_with_same_locality (d : dump) (src : dobj) (ty : N) : option 
          | None => (None, E_NOENT)
          | Some pci =>
              if ty =? HWLOC_OBJ_PCI_DEVICE then
-               if o_type pci =? HWLOC_OBJ_PCI_DEVICE then (Some pci, E_OK) else (None, E_NOENT)
+               if (o_type pci =? HWLOC_OBJ_PCI_DEVICE) && mt pci then (Some pci, E_OK) else (None, E_NOENT)
              else
-               match find (fun c => o_type c =? HWLOC_OBJ_OS_DEVICE)
-                          (flat_map (fun p => match deref d p with Some o => [o] | None => [] end) (o_ich pci)) with
+               match find (fun c => (o_type c =? HWLOC_OBJ_OS_DEVICE) && mt c) (io_children d pci) with
                | Some c => (Some c, E_OK)
                | None => (None, E_NOENT)
                end
          end
   else (None, E_INVAL).
+
+(* ------------------------------------------------------------------ *)
+(* hwloc_get_type_depth_with_attr: [gd] = attrp->group.depth, None when attrp is NULL or attrsize
+   is smaller than the union *)
+
+Definition level_first (d : dump) (depth : Z) : option dobj :=
+  match level_objs d depth with o :: _ => Some o | [] => None end.
+
+Definition get_type_depth_with_attr (d : dump) (ty : Z) (gd : option Z) : Z :=
+  let depth := get_type_depth d ty in
+  match gd with
+  | Some g =>
+      if (ty =? Z.of_N HWLOC_OBJ_GROUP)%Z && (depth =? HWLOC_TYPE_DEPTH_MULTIPLE)%Z && negb (g =? Z.of_N UINT_MAX)%Z then
+        match find (fun l => match level_first d (Z.of_nat l) with
+                             | Some o => (o_type o =? HWLOC_OBJ_GROUP) && (o_group_depth o =? g)%Z
+                             | None => false end) (seq 0 (Z.to_nat (t_depth d))) with
+        | Some l => Z.of_nat l
+        | None => HWLOC_TYPE_DEPTH_UNKNOWN
+        end
+      else depth
+  | None => depth
+  end.
+
+(* ------------------------------------------------------------------ *)
+(* hwloc_get_next_child: normal, then memory, then I/O, then Misc children *)
+
+Definition first_ptr (l : list ptr) : ptr := match l with p :: _ => p | [] => PNull end.
+
+Definition get_next_child (d : dump) (parent : dobj) (prev : option dobj) : ptr :=
+  let state0 := match prev with
+                | Some p => if o_type p =? HWLOC_OBJ_MISC then 3 else if is_io (o_type p) then 2
+                            else if is_memory (o_type p) then 1 else 0
+                | None => 0
+                end in
+  let obj0 := match prev with Some p => o_next_sib p | None => o_first parent end in
+  let '(obj1, state1) := if ptr_eqb obj0 PNull && (state0 =? 0) then (first_ptr (o_mch parent), 1) else (obj0, state0) in
+  let '(obj2, state2) := if ptr_eqb obj1 PNull && (state1 =? 1) then (first_ptr (o_ich parent), 2) else (obj1, state1) in
+  if ptr_eqb obj2 PNull && (state2 =? 2) then first_ptr (o_xch parent) else obj2.
+
+Fixpoint iter_children (d : dump) (fuel : nat) (parent : dobj) (prev : option dobj) : list dobj :=
+  match fuel with
+  | O => []
+  | S f => match deref d (get_next_child d parent prev) with
+           | Some c => c :: iter_children d f parent (Some c)
+           | None => []
+           end
+  end.
+
+(* ------------------------------------------------------------------ *)
+(* hwloc_get_memory_parents_depth *)
+
+Fixpoint climb_memory (d : dump) (fuel : nat) (o : dobj) : option dobj :=
+  match fuel with
+  | O => None
+  | S f => if is_memory (o_type o) then match deref d (o_parent o) with Some p => climb_memory d f p | None => None end
+           else Some o
+  end.
+
+Definition get_memory_parents_depth (d : dump) : option Z :=
+  fold_left (fun acc numa =>
+               match acc with
+               | None => None
+               | Some depth =>
+                   if (depth =? HWLOC_TYPE_DEPTH_MULTIPLE)%Z then acc
+                   else match deref d (o_parent numa) with
+                        | None => None
+                        | Some p0 =>
+                            match climb_memory d (S (List.length (t_objs d))) p0 with
+                            | None => None
+                            | Some p => if (depth =? HWLOC_TYPE_DEPTH_UNKNOWN)%Z then Some (o_depth p)
+                                        else if (depth =? o_depth p)%Z then acc else Some HWLOC_TYPE_DEPTH_MULTIPLE
+                            end
+                        end
+               end) (level_objs d HWLOC_TYPE_DEPTH_NUMANODE) (Some HWLOC_TYPE_DEPTH_UNKNOWN).
 
 (* ------------------------------------------------------------------ *)
 (* hwloc_bitmap_singlify_per_core ([cores] = the Core level when the Core
@@ -508,13 +587,58 @@ Definition closest_spec (d : dump) (src : dobj) (max : N) (ids : list N) : bool 
   (negb (N.of_nat (List.length ids) <? max) ||
    forallb (fun o => bs_subset (dcs o) (dcs src) || existsb (N.eqb (o_id o)) ids) lv).
 
-Definition same_locality_spec (d : dump) (src : dobj) (ty : N) (r : option N) : bool :=
-  let good o := (o_type o =? ty) && opt_bs_eqb (o_cs src) (o_cs o) && opt_bs_eqb (o_nds src) (o_nds o) in
+Definition same_locality_spec (d : dump) (src : dobj) (ty : N) (mt : dobj -> bool) (r : option N) : bool :=
+  let good o := (o_type o =? ty) && opt_bs_eqb (o_cs src) (o_cs o) && opt_bs_eqb (o_nds src) (o_nds o) && mt o in
   match r with
   | Some i => match get d i with Some o => good o | None => false end
   | None =>
       (* complete unless the type sits at several depths (hwloc_get_next_obj_by_type gives up) *)
       (get_type_depth d (Z.of_N ty) =? HWLOC_TYPE_DEPTH_MULTIPLE)%Z || negb (existsb good (t_objs d))
+  end.
+
+(* I/O sources (PCI or OS devices): the answer lives in the same PCI device: the container is the
+   first ancestor-or-self of src that is not an OS device; a PCI answer is that container, an
+   OS-device answer is one of its I/O children; NULL iff there is no such matching object *)
+Definition same_locality_io_spec (d : dump) (src : dobj) (ty : N) (mt : dobj -> bool) (r : option N) : bool :=
+  match find (fun a => negb (o_type a =? HWLOC_OBJ_OS_DEVICE)) (ancestors_or_self d src) with
+  | None => match r with None => true | Some _ => false end
+  | Some cont =>
+      let cands := if ty =? HWLOC_OBJ_PCI_DEVICE then (if (o_type cont =? HWLOC_OBJ_PCI_DEVICE) && mt cont then [cont] else [])
+                   else filter (fun c => (o_type c =? HWLOC_OBJ_OS_DEVICE) && mt c)
+                               (filter (fun o => ptr_eqb (o_parent o) (PId (o_id cont)) && is_io (o_type o)) (t_objs d)) in
+      match r with
+      | Some i => existsb (fun c => o_id c =? i) cands
+      | None => match cands with [] => true | _ => false end
+      end
+  end.
+
+(* type depth with a group-depth attribute: a non-negative answer names a level of that type; for
+   Groups at several depths and a given group depth it is the first level of Groups of that depth *)
+Definition type_depth_attr_spec (d : dump) (ty : N) (gd : option Z) (dep : Z) : bool :=
+  let plain := get_type_depth d (Z.of_N ty) in
+  match gd with
+  | Some g =>
+      if (ty =? HWLOC_OBJ_GROUP) && (plain =? HWLOC_TYPE_DEPTH_MULTIPLE)%Z && negb (g =? Z.of_N UINT_MAX)%Z then
+        let groups := filter (fun o => (o_type o =? HWLOC_OBJ_GROUP) && (o_group_depth o =? g)%Z) (t_objs d) in
+        match groups with
+        | [] => (dep =? HWLOC_TYPE_DEPTH_UNKNOWN)%Z
+        | _ => existsb (fun o => (o_depth o =? dep)%Z) groups && forallb (fun o => (dep <=? o_depth o)%Z) groups
+        end
+      else (dep =? plain)%Z
+  | None => (dep =? plain)%Z
+  end.
+
+(* next_child enumerates the four children lists in order *)
+Definition next_child_spec (d : dump) (parent : dobj) (ids : list N) : bool :=
+  ids_eqb ids (ptr_ids (o_nch parent ++ o_mch parent ++ o_ich parent ++ o_xch parent)).
+
+(* memory parents depth: the common depth of the first non-memory ancestors of the NUMA nodes, MULTIPLE if they differ *)
+Definition memory_parents_spec (d : dump) (dep : Z) : bool :=
+  let parents := flat_map (fun numa => match find (fun a => negb (is_memory (o_type a))) (ancestors_or_self d numa) with
+                                       | Some p => [o_depth p] | None => [] end) (level_objs d HWLOC_TYPE_DEPTH_NUMANODE) in
+  match parents with
+  | [] => false
+  | p :: tl => if forallb (Z.eqb p) tl then (dep =? p)%Z else (dep =? HWLOC_TYPE_DEPTH_MULTIPLE)%Z
   end.
 
 (* type/depth lookups: the depth of a type is its fixed special depth, or the
